@@ -10,7 +10,7 @@ inductive BodySpec where
 deriving Repr
 
 inductive ElemSpec where
-  | val | noRes | fault (e : Exc)
+  | val | noRes | zero | fault (e : Exc)
 deriving Repr
 
 structure CompSpec where
@@ -72,6 +72,7 @@ def parseElems (s : String) : Option (List ElemSpec) :=
     | none => none
     | some l =>
       if p = "v" then some (.val :: l) else if p = "n" then some (.noRes :: l)
+      else if p = "z" then some (.zero :: l)
       else if p.startsWith "f:" then (parseExc (p.drop 2).toString).map (fun e => ElemSpec.fault e :: l)
       else none) (some [])
 
@@ -126,6 +127,7 @@ def elemOf (sps : List ElemSpec) (c : Comp) (x : Nat) : ElemOutcome :=
   match sps[x % sps.length]? with
   | some .val => .value ((x * 7 + c) % 1000)
   | some .noRes => .noResult
+  | some .zero => .value 0          -- a value that is falsy in Python but is a value (not None)
   | some (.fault e) => .fault e
   | none => .noResult
 
